@@ -845,7 +845,7 @@ func (t *Teamserver) SendAllPackagesToNewClient(ClientID string) {
 func (t *Teamserver) FindSystemPackages() bool {
 	var err error
 
-	if t.Profile.Config.Server.Build != nil {
+	if t.Profile.Config.Server != nil && t.Profile.Config.Server.Build != nil {
 
 		if len(t.Profile.Config.Server.Build.Compiler64) > 0 {
 			if _, err := os.Stat(t.Profile.Config.Server.Build.Compiler64); os.IsNotExist(err) {
